@@ -15,14 +15,15 @@ ANCHORS = ["pyoma2.functions.gen:check_on_geo1", "pyoma2.functions.gen:check_on_
 REQUIRED_MONITORS = ["arguments unchanged + second definition", "alignment@def_geo1_by_file", "alignment@def_geo2_by_file", "alignment@def_geo1(arguments)", "alignment@def_geo2(arguments)", "corruption->ValueError@geo1",
                      "corruption->ValueError@geo2", "mapping@dfphi_map_func", "artists@plot_mode_geo1", "artists@plot_mode_geo2_mpl", "names@flatten_sns_names"]
 CORR1 = ["missing sensors names", "missing sensors coordinates", "missing sensors directions", "unknown sheet", "coordinates 2 columns", "directions 2 columns", "directions fewer rows",
-         "directions other index", "BG nodes 2 columns", "BG lines 3 columns", "BG surfaces 2 columns", "name not in coordinates"]
+         "directions other index", "BG nodes 2 columns", "BG lines 3 columns", "BG surfaces 2 columns", "name not in coordinates", "sensors lines 3 columns"]
 CORR2 = ["missing sensors names", "missing points coordinates", "missing mapping", "unknown sheet", "points 2 columns", "mapping fewer rows", "sign fewer rows", "name not in mapping",
-         "constraint column unknown sensor", "constraint never used", "BG nodes 2 columns", "BG lines 3 columns", "BG surfaces 2 columns"]
+         "constraint column unknown sensor", "constraint never used", "BG nodes 2 columns", "BG lines 3 columns", "BG surfaces 2 columns", "sensors lines 3 columns",
+         "sensors surfaces 2 columns", "mapping other index"]
 ALL_STATES = ["geo1:" + c for c in CORR1] + ["geo2:" + c for c in CORR2] + ["table rows permuted against name order", "multi-setup names (table)", "multi-setup names (list of lists)",
                                                                                  "single names (row table)", "single names (list)", "single names (array)", "optional sheets all omitted",
                                                                                  "optional sheets all present", "constraints used", "constraints sheet omitted"]
 ALL_STATES += ["mapping table with a purely numeric x or y column", "surface patches read back", "malformed tables given as arguments", "removed name is a substring of another cell", "sign table with row labels other than the points' labels"]
-REQUIRED_STATES = list(ALL_STATES) + ["exactly three sensors (square coordinate / direction tables)", "unknown sheet is a documented sheet name typed with other capitals / a stray blank", "sensors not aligned with a global axis (non-integer direction cosines)"]
+REQUIRED_STATES = list(ALL_STATES) + ["constraint row with coefficients summing to almost one", "exactly three sensors (square coordinate / direction tables)", "unknown sheet is a documented sheet name typed with other capitals / a stray blank", "sensors not aligned with a global axis (non-integer direction cosines)"]
 RULE = ("sensor sets of 1..12 names; coordinate/direction tables with rows permuted against the name order; mapping tables whose cells are sensor names, constraint "
         "names or 0/NaN; constraint matrices; sign tables in {-1,0,1}; one-based line/surface tables; optional sheets present/absent in every combination; "
         "single-setup name forms (row table, list, array) and multi-setup forms (padded table, list of lists) on real SingleSetup / MultiSetup_PreGER "
@@ -124,6 +125,7 @@ def tables1(rng, flat, optional):
 
 
 def tables2(rng, flat, optional, with_constraints, plane=False):
+    tables2.near_one = False
     n = len(flat)
     npts = int(rng.integers(max(1, (n + 2) // 3), max(2, n) + 2))
     while npts * (2 if plane else 3) < n + (2 if with_constraints else 0):
@@ -149,7 +151,16 @@ def tables2(rng, flat, optional, with_constraints, plane=False):
         rest = rest[nc:]
         cols = [flat[int(i)] for i in rng.permutation(n)[: int(rng.integers(1, min(n, 3) + 1))]]
         cst = pd.DataFrame(rng.integers(-2, 3, (nc, len(cols))).astype(float) / 2, index=cn, columns=cols)
-        if rng.random() < 0.3:
+        tables2.near_one = False
+        if len(cols) >= 2 and rng.random() < 0.4:
+            # interpolation weights as they are typed: 0.33 / 0.33 / 0.33, 0.6 / 0.405 - a row that sums to ALMOST one holds exactly the
+            # coefficients written there
+            w_ = [[0.33, 0.33, 0.33], [0.6, 0.405, 0.0], [0.5, 0.495, 0.0], [0.25, 0.25, 0.505]][int(rng.integers(0, 4))][: len(cols)]
+            if len(cols) == 2 and w_ == [0.33, 0.33]:
+                w_ = [0.67, 0.325]
+            cst.iloc[0, :] = w_
+            tables2.near_one = True
+        elif rng.random() < 0.3:
             cst.iat[0, 0] = np.nan
     for (i, j) in rest:
         if rng.random() < 0.3:
@@ -349,6 +360,8 @@ def run_geo(ctx, rng, which, by_args, three=False):
         check_geo2(ctx, tag, sig, setup.geo2, flat, src)
         check_mapping(ctx, setup.geo2, flat, src)
         ctx.state("constraints used" if "constraints" in src else "constraints sheet omitted")
+        if "constraints" in src and getattr(tables2, "near_one", False):
+            ctx.state("constraint row with coefficients summing to almost one")
         ctx.nontrivial((sig, tuple(flat), src["mapping"].shape))
     ctx.state(form_name)
     ctx.ev("names@flatten_sns_names")
@@ -385,6 +398,19 @@ def corrupt(rng, which, name, tabs, flat, names_tab):
         idx = list(d["sensors directions"].index)
         idx[-1] = "zz_unknown"
         d["sensors directions"] = d["sensors directions"].set_axis(idx)
+    elif name == "sensors lines 3 columns":
+        d["sensors lines"] = pd.DataFrame([[1, 2, 1]] if rng.random() < 0.7 else [[1]])
+    elif name == "sensors surfaces 2 columns":
+        d["sensors surfaces"] = pd.DataFrame([[1, 2]] if rng.random() < 0.7 else [[1, 2, 1, 2]])
+    elif name == "mapping other index":
+        # the mapping sheet's point labels differ from those of the coordinate sheet (one label replaced / the rows in another order): the
+        # two sheets describe the same points row by row, as 'sensors coordinates' and 'sensors directions' do for geometry 1
+        idx = list(d["mapping"].index)
+        if len(idx) >= 2 and rng.random() < 0.5:
+            idx = idx[1:] + idx[:1]
+        else:
+            idx[-1] = "zz_unknown"
+        d["mapping"] = d["mapping"].set_axis(idx)
     elif name == "BG nodes 2 columns":
         d["BG nodes"] = pd.DataFrame(np.ones((2, 2)))
     elif name == "BG lines 3 columns":
@@ -449,8 +475,9 @@ def run_corrupt(ctx, case, rng, which):
     ctx.ev(tag)
     via_file = rng.random() < 0.5
     ARGS1 = {"coordinates 2 columns", "directions 2 columns", "directions fewer rows", "directions other index", "name not in coordinates",
-             "BG nodes 2 columns", "BG lines 3 columns", "BG surfaces 2 columns"}
-    ARGS2 = {"points 2 columns", "mapping fewer rows", "sign fewer rows", "name not in mapping", "constraint column unknown sensor", "constraint never used"}
+             "BG nodes 2 columns", "BG lines 3 columns", "BG surfaces 2 columns", "sensors lines 3 columns"}
+    ARGS2 = {"points 2 columns", "mapping fewer rows", "sign fewer rows", "name not in mapping", "constraint column unknown sensor", "constraint never used",
+             "sensors lines 3 columns", "sensors surfaces 2 columns"}
     via_args = name in (ARGS1 if which == 1 else ARGS2) and rng.random() < 0.4
     try:
         if via_args:
